@@ -336,6 +336,10 @@ func (c *fnCtx) expr(e ast.Expr) (string, error) {
 			v := constant.MakeFromLiteral(x.Value, token.INT, 0)
 			return v.ExactString(), nil
 		}
+		if x.Kind == token.CHAR {
+			v := constant.ToInt(constant.MakeFromLiteral(x.Value, token.CHAR, 0))
+			return v.ExactString(), nil
+		}
 	case *ast.Ident:
 		if c.params[x.Name] {
 			return x.Name, nil
